@@ -32,6 +32,10 @@ def run(repo: Repo, rep, tier: str):
     unset_mapping(repo, rep, "C20", mc)
     delivered_value(repo, rep, "C20", mc)
     curve_interpolation(repo, rep, "C20")
+    # every fresh MultiCtl starts from its own copy of the linear default curve (else an edited curve of one
+    # MultiCtl becomes the transfer curve of all others, which is no longer monotone)
+    from . import c17
+    c17.array_chunk_defaults_rule(repo, rep, "C20", "R6", within=("BaseMultiCtl", "MultiCtl"), floor=1)
 
 
 # ------------------------------------------------------------------------------------ R4 / R5
